@@ -222,14 +222,13 @@ class AnnDataRowIterator(object):
         file_size_bytes = file_stats.st_size
         fudge_factor = 1.1  # just in case
 
+        with h5py.File(h5ad_path, 'r', swmr=True) as src:
+            attrs = dict(src[self.layer].attrs)
+
         if free_bytes < fudge_factor*file_size_bytes:
             write_as_csr = False
-        else:
-            with h5py.File(h5ad_path, 'r', swmr=True) as src:
-                attrs = dict(src[self.layer].attrs)
-
-            if 'shape' not in attrs:
-                write_as_csr = False
+        elif 'shape' not in attrs:
+            write_as_csr = False
 
         if not write_as_csr:
             raise RuntimeError(
